@@ -310,3 +310,10 @@ R("C01", "refactor-kep2cart", FORMS, "        z = r * sin(i) * sin(ω + ν)", " 
 
 M("C02", "precession-coefficient", I80, "    zeta = (2306.2181 * t + 0.30188 * t ** 2 + 0.017998 * t ** 3) / 3600.0", "    zeta = (2306.2181 * t + 0.30188 * t ** 2 + 0.017989 * t ** 3) / 3600.0", "R02.8")
 M("C02", "era-rate", I10, "1.00273781191135448", "1.00273781191135484", "R02.8")
+
+M("C01", "cart2kep-node", FORMS, "        Ω = arctan2(h[0], -h[1]) % (2 * np.pi)", "        Ω = arctan2(h[1], -h[0]) % (2 * np.pi)", "R01.13")
+M("C01", "cart2kep-anomaly", FORMS, "ν = arctan2(sqrt(p / body.µ) * np.dot(v, r), p - r_norm) % (2 * np.pi)", "ν = arctan2(sqrt(p / body.µ) * np.dot(v, r), r_norm - p) % (2 * np.pi)", "R01.13")
+M("C01", "cart2kep-sma", FORMS, "        a = -body.µ / (2 * K)  # semi-major axis", "        a = -body.µ / K  # semi-major axis", "R01.13")
+M("C01", "cart2kep-energy", FORMS, "        K = v_norm ** 2 / 2 - body.µ / r_norm  # specific energy", "        K = v_norm ** 2 - body.µ / r_norm  # specific energy", "R01.13")
+M("C01", "cart2kep-perigee", FORMS, "        ω = (ω_ν - ν) % (2 * np.pi)  # argument of the perigee", "        ω = (ω_ν + ν) % (2 * np.pi)  # argument of the perigee", "R01.13")
+M("C01", "cart2kep-inclination", FORMS, "        i = arccos(h[2] / h_norm)  # inclination", "        i = arccos(h[1] / h_norm)  # inclination", "R01.13")
